@@ -126,6 +126,23 @@ PROPS = {
             'rule': 'det: hub histories (as for C04/C10-C13) interleaved with failing token-list transactions and keeper rebuilds; detoracle: oracle histories (as for C18); every history executed by 3 (thorough: 8) processes and compared byte for byte incl. per-operation state/event hashes; 4 cases per suite re-run alone.',
             'assumptions': ['distinct voters hold at most the total power (C18_voters_distinct_one_report_each + staking: operator addresses are unique)',
                             'PowerDiff\'s float64 additions are exact: every partial sum is an integer below 2^34 (both signer sets sum to at most 2^32-1: C09)']},
+    'C05': {'gen': ['gen_iterfacts.py'],
+            'suites': [{'name': 'blocks', 'quick': '-n 20 -ops 80 -hostile', 'thorough': '-n 150 -ops 150 -hostile', 'shards': {'quick': 4, 'thorough': 16}},
+                       {'name': 'votes', 'quick': '-n 200 -ops 70', 'thorough': '-n 2000 -ops 150', 'shards': {'quick': 2, 'thorough': 8}},
+                       {'name': 'oracle', 'quick': '-n 200 -ops 80', 'thorough': '-n 2000 -ops 160', 'shards': {'quick': 2, 'thorough': 8}}],
+            'trusted_base': [
+                'translator bin/gen_iterfacts.py (syntactic; calls are resolved by name inside module/x/mhub2 and module/x/oracle, transitively): regenerates coq/Gen/IterFacts.v on every run: the bodies that run while a store iterator is open '
+                '(callbacks of the keepers\' Iterate* helpers, for-iter.Valid loops) and the calls in them that write to the module store and open another iterator (iter_write_sites, must be empty) or only write (iter_plain_write_sites)',
+                'lock model (Proofs/C05Proofs.v): the cosmos-sdk cachekv store + tm-db MemDB discipline reduced to: an open iterator may hold the read lock of the dirty-entry index; an iterator opened after a write needs its write lock. '
+                'This reduction is read from cosmos-sdk v0.45.4 store/cachekv and tm-db v0.6.6 memdb (trusted, reproduced by the watchdog runs on the reverted fix and on the seeded change)',
+                'correspondence / runtime half: suite blocks executes hub histories with every block on a cache-wrapped multistore (as deliverState), BeginBlocker/EndBlocker under a 20 s watchdog (code 3 = did not return), hostile amounts and bursts of 60-110 transfers, '
+                'timed-out full batches and mass expiries in one block; suites votes and oracle run the tally / oracle EndBlocker; the monitor flags every block-processing call that does not return normally',
+                'proved on the models: BeginBlocker never panics (configured chains known, block times non-zero), an applied event fails on its own, tally and oracle never panic. NOT proved: panic freedom of the expiry refunds inside the EndBlocker '
+                '(cancel/refund arithmetic on stored entries after token-list changes) — covered by the hostile correspondence only'],
+            'rule': 'blocks: hub histories (hostile stream: negative / zero / 2^255-scale amounts and fees, unknown tokens and chains, missing prices) with up to three bursts of 60-110 transfers written in one block, followed by a batch request + timeout of the whole batch, '
+                    'or by a 62 s jump so that they expire next to a second burst; every BeginBlocker/EndBlocker on a cache-wrapped multistore under a watchdog. votes / oracle: as for C02/C03 and C18.',
+            'assumptions': ['every configured chain id is one of ethereum, bsc, minter, hub and the average block times are non-zero (hypothesis params_ok; an unknown chain id divides by zero in getBatchTimeoutHeight)',
+                            'staking powers are non-negative']},
     'C18': {'suites': [{'name': 'oracle', 'quick': '-n 300 -ops 80', 'thorough': '-n 4000 -ops 160', 'shards': {'quick': 2, 'thorough': 16}}],
             'trusted_base': [
                 'model: coq/Oracle/Oracle.v (MsgPriceClaim / MsgHoldersClaim handlers, attestation vote lists, tryAttestation threshold, GetNormalizedValPowers, the two AttestationHandler branches, ProcessCurrentEpoch, '
@@ -221,6 +238,10 @@ TEXT = {
             'level': 'Theorems: the map iterations / goroutines / clock / random uses of the current consensus code are exactly the eight classified sites and two simulation helpers; sorted key lists, minima, exact sums, the weighted-median inputs are independent of iteration order; '
                      'at most one holder list can pass the two-thirds test. The models are functions, tied to the code by the det suites. PARTIAL by nature: absence of nondeterminism below the modules (SDK, protobuf, Go runtime) and goroutine scheduling are exercised by replays in fresh processes, not proved.',
             'note': 'Trusted: Coq kernel, the syntactic translator, extraction + driver, Go harness; replays are tests.'},
+    'C05': {'technique': 'Coq theorem on iterator nesting (lock skeleton) over facts translated from the keepers + no-panic theorems on the models + watchdog correspondence on a cache-wrapped multistore',
+            'level': 'Theorems: code without an iterator body that both writes and opens another iterator never blocks (all loop counts, all dirty-entry counts), the excluded shape does block, and the current keepers contain no such site; BeginBlocker never panics for known chains; '
+                     'an applied event fails on its own; tally and oracle never panic. PARTIAL: EndBlocker expiry refunds are not proved panic-free; deadlock freedom of the real store is the lock model plus watchdog runs, not a proof about cachekv/MemDB.',
+            'note': 'Trusted: Coq kernel, the syntactic translator, the lock model of cachekv/MemDB, extraction + driver, Go harness with watchdog.'},
     'C18': {'technique': 'Coq invariant over claim histories + order-independence lemma for the quorum + sorted-list proof of the weighted median + correspondence with the real x/oracle keeper',
             'level': 'Theorems for all histories and power distributions: epoch, prices and holders change at no step other than the epoch-boundary EndBlocker; voters are pairwise distinct and are exactly the validators with a stored (latest) report of the epoch; '
                      'the in-order early-exit quorum test equals "voters hold >= 66% of bonded power"; a boundary that changes prices/holders had that quorum; every stored price is the weighted median (half-weight bounds on both sides) of the latest reports; '
